@@ -74,7 +74,7 @@ def case(args):
             problems.append(("tokens-exceeded", "%d tokens deposited and not yet removed, capacity is %d" % (tk, mx)))
         return problems
     ys = (rng.randint(1, 10**6), rng.choice([100, 1000])) if rng.random() < 0.5 else None
-    r = t3.success_case(sp, yield_seed=ys, extra_check=chk, gomaxprocs=rng.choice([None, 1]))
+    r = t3.success_case(sp, yield_seed=ys, extra_check=chk, gomaxprocs=rng.choice([None, 1]), replays=("slots",))
     r["max"], r["overlap"], r["tokens"] = mx, maxseen.get("o", 0), maxseen.get("t", 0)
     return r
 
